@@ -206,6 +206,28 @@ Example c03_example_not_found :
   = Some (Err WCredentialNotFound).
 Proof. vm_compute. reflexivity. Qed.
 
+(** *** source order of the client's authentication ceremony (lists regenerated from passkey-client/src/lib.rs and
+    passkey-authenticator/src on every run): every run of the model's [authenticate] performs its effects in the order
+    of [Client::authenticate] with [Authenticator::get_assertion] expanded to its own source skeleton *)
+From Coq Require Import String.
+From PK Require Auth.SkeletonFacts Auth.ClientSkeletonFacts Auth.ClientSource Auth.gen.ClientSkeleton Auth.gen.Skeleton.
+Theorem c03_client_authenticate_in_source_order : forall c domain origin q cd script,
+  SkeletonFacts.subseq (map (fun ea : eff * answer => SkeletonFacts.kind (fst ea)) (fst (interp (Client.authenticate c domain origin q cd) script)))
+                       (ClientSkeletonFacts.cskeleton ClientSkeleton.SRC_CLIENT_AUTHENTICATE).
+Proof. exact ClientSkeletonFacts.client_authenticate_effects_in_source_order. Qed.
+Theorem c03_client_authenticate_source_is_the_modelled_one :
+  ClientSkeleton.SRC_CLIENT_AUTHENTICATE = ClientSource.EXP_CLIENT_AUTHENTICATE.
+Proof. exact ClientSource.src_client_authenticate_order. Qed.
+Theorem c03_client_authenticate_source_facts :
+  (OrderList.before "TypeGet" "GetAssertion" ClientSkeleton.SRC_CLIENT_AUTHENTICATE = true
+  /\ OrderList.first_pos "TypeCreate" ClientSkeleton.SRC_CLIENT_AUTHENTICATE = None
+  /\ OrderList.before "ClientDataHash" "GetAssertion" ClientSkeleton.SRC_CLIENT_AUTHENTICATE = true
+  /\ OrderList.before "GetAssertion" "IntoWebauthnError" ClientSkeleton.SRC_CLIENT_AUTHENTICATE = true
+  /\ OrderList.first_pos "MakeCredential" ClientSkeleton.SRC_CLIENT_AUTHENTICATE = None
+  /\ OrderList.before "Update" "Sign" Skeleton.SRC_GET_ASSERTION = true
+  /\ last Skeleton.SRC_GET_ASSERTION "" = "Sign")%string.
+Proof. vm_compute. repeat split. Qed.
+
 Print Assumptions c03_run_shape.
 Print Assumptions c03_signature.
 Print Assumptions c03_verifies.
@@ -221,3 +243,6 @@ Print Assumptions c03_registration_entry.
 Print Assumptions c03_registry_invariant.
 Print Assumptions c03_authentication_in_history.
 Print Assumptions c03_history_verifies.
+Print Assumptions c03_client_authenticate_in_source_order.
+Print Assumptions c03_client_authenticate_source_is_the_modelled_one.
+Print Assumptions c03_client_authenticate_source_facts.
